@@ -25,8 +25,9 @@ FILE_CHANNELS = ["json", "json_vu", "csv_dir", "csv_tuple", "xlsx"]
 MEM_CHANNELS = ["dict", "model", "vu_dict", "from_json"]
 FORBIDDEN = set("[]:*?/\\")
 UNITS = dict(t_supply="degC", t_target="degC", heat_flow="kW", dt_cont="degC", htc="kW/m^2/degC", price="$/MWh")
-SAFE_NAMES = ["Stream", "Utility", "H1", "C 2", "Feed-pre", "Reboiler (A)", "Stream_7", "Cond, top", "Wasseré", "x&y", "BFW", 'He said "hi"', "O'Brien feed", "semi;colon"]
-SAFE_ZONES = ["Process Zone", "Plant", "Area 1", "Unit-A", "North", "Dairy (2)", "B_2"]
+SAFE_NAMES = ["Stream", "Utility", "H1", "C 2", "Feed-pre", "Reboiler (A)", "Stream_7", "Cond, top", "Wasseré", "x&y", "BFW", 'He said "hi"', "O'Brien feed", "semi;colon",
+              "#2 Paper Machine", "Feed #2", "50% load", "@inlet", "a|b", "~purge", "{vent}", "<side draw>", "$ cost", "a+b", "x^2", "back`tick", "excl!", "q = 5", "-minus", "+plus", "under_ score"]
+SAFE_ZONES = ["Process Zone", "Plant", "Area 1", "Unit-A", "North", "Dairy (2)", "B_2", "#1 Unit", "Area #3", "Line @ 5", "Z{1}", "50% zone", "A+B", "Mill; east", "R&D", "~temp", "-dash first"]
 HOSTILE_ZONES = [
     "Zone[1]", "a:b", "what?", "star*", "back\\slash", "'quoted'", "x" * 40, "Very long zone name that exceeds the limit", "Very long zone name that exceeds the limIT",
     "Very long zone name that exceeds the limit!", "Überhitzer – Stufe 2", "tab\tname", "Sheet", "  padded  ", "UPPER", "upper", "a/b:c", "History",
@@ -398,7 +399,7 @@ class C16(World):
                         s_["name"] = pr.choice(ODD_LABELS)
                 for u in p["utilities"]:
                     if pr.random() < 0.3:
-                        u["name"] = pr.choice(["NA", "2024", "nan", "1e3"])
+                        u["name"] = pr.choice(["NA", "2024", "nan", "1e3", "#1 Boiler Steam", "CW #2", "50% steam"])
             if pr.random() < 0.12 and p["streams"]:
                 p["streams"].insert(pr.randrange(len(p["streams"]) + 1), dict(p["streams"][pr.randrange(len(p["streams"]))]))  # two identical parallel units
             for u in p["utilities"]:
@@ -419,7 +420,7 @@ class C16(World):
         steps = []
         nw = swarm["n_wrappers"]
         for i in range(swarm["length"]):
-            cand = [("load", 5.0), ("target", 4.0), ("svc", 1.5), ("export", 1.5 * swarm["w_export"]), ("ctor_run", 0.6), ("alloc", 0.6), ("clock", 0.5), ("xlsb", 0.12)]
+            cand = [("load", 5.0), ("target", 4.0), ("svc", 1.5), ("export", 1.5 * swarm["w_export"]), ("ctor_run", 0.6), ("alloc", 0.6), ("clock", 0.5), ("xlsb", 0.12), ("reload", 0.9)]
             op = ops.choices([k for k, _ in cand], [w for _, w in cand])[0]
             c = sched.randrange(swarm["clients"])
             follow_with_target = False
@@ -490,6 +491,11 @@ class C16(World):
                 st = dict(op="alloc", labels=labels)
             elif op == "clock":
                 st = dict(op="clock", dt=args.choice([0, 0, 1, 61, 86400, -1, -7200]))
+            elif op == "reload":
+                # the file of the latest file-channel load, left exactly as it is on disk, is loaded again (on this or another wrapper),
+                # optionally after the caller edited in place the dictionary the earlier load handed out
+                st = dict(op="reload", w=args.randrange(nw), edit=args.random() < 0.6, fresh_wrapper=args.random() < 0.3)
+                follow_with_target = True
             else:
                 st = dict(op="xlsb", i=args.randrange(64))
             st["client"] = c
@@ -604,6 +610,7 @@ class C16(World):
 
         n_w = trace.get("swarm", {}).get("n_wrappers", 1)
         wrappers = [PinchProblem() for _ in range(n_w)]
+        last_file = {}
         model = [dict(loaded=None, keep=None, no_options=False, cached=False, last=None, ch=None, failed_load=False, exact=False, tweak=False) for _ in range(n_w)]
         prev_op = None
         fault_in_force = "none"
@@ -707,6 +714,8 @@ class C16(World):
                     elif ch == "xlsx":
                         src = os.path.join(d, stem + (".xlsm" if style.get("xlsm") else ".xlsx"))
                         write_xlsx(src, data, keep, units=True, ints=style["ints"], extra=style["extra"])  # the workbook template always carries its units row
+                    if src is not None and last_file.get("src") == src:
+                        last_file.clear()  # the producer has just rewritten that file: it is no longer "the file as it was loaded"
                     if not style["units"] and ch in ("csv_dir", "csv_tuple"):
                         probe("file_without_units_row")
                     if has_blanks(data) and ch in ("csv_dir", "csv_tuple", "xlsx"):
@@ -790,6 +799,8 @@ class C16(World):
                         if ch in ("dict", "from_json"):
                             model[w_i] = m = dict(loaded=None, keep=None, no_options=False, cached=False, last=None, ch=None, failed_load=False, exact=False)
                         m.update(loaded=p, keep=keep, no_options=no_options, tweak=tweak, cached=False, ch=ch, failed_load=False, alts=[], exact=ch in ("dict", "model", "vu_dict", "from_json", "json", "json_vu"))
+                        if ch in FILE_CHANNELS and src is not None and not flt:
+                            last_file.update(src=src, w=w_i, rec=dict(loaded=p, keep=keep, no_options=no_options, tweak=tweak, ch=ch, exact=ch in ("json", "json_vu")))
                         if m["last"] is not None:
                             probe("reload_on_used_wrapper")
                         outcome = "ok"
@@ -801,6 +812,48 @@ class C16(World):
                         m["failed_load"] = True
                         m["cached"] = False  # whether a failed load drops the cached result is not constrained
                         probe("load_failed_under_fault")
+                elif op == "reload":
+                    if not last_file.get("src"):
+                        outcome = "skip"
+                    else:
+                        rec, w0 = last_file["rec"], last_file["w"]
+                        if st.get("edit") and model[w0].get("loaded") == rec["loaded"] and model[w0].get("ch") == rec["ch"] and not model[w0].get("failed_load"):
+                            # the caller edits, in place, the dictionary that load() handed out: its own business, but no later
+                            # load of the untouched file may see the edit
+                            d_ = wrappers[w0].problem_data
+                            if isinstance(d_, dict) and d_.get("streams"):
+                                s0 = d_["streams"][0]
+                                if isinstance(s0, dict):
+                                    hf = s0.get("heat_flow")
+                                    if isinstance(hf, dict) and isinstance(hf.get("value"), (int, float)):
+                                        hf["value"] = hf["value"] * 3 + 1000.0
+                                    elif isinstance(hf, (int, float)):
+                                        s0["heat_flow"] = hf * 3 + 1000.0
+                                    s0["name"] = "edited by the caller"
+                                if len(d_["streams"]) > 1:
+                                    d_["streams"].pop()
+                                if isinstance(d_.get("utilities"), list) and d_["utilities"]:
+                                    d_["utilities"].pop(0)
+                                model[w0].update(loaded=None, failed_load=True, cached=False, last=None, alts=[])  # not judged until its next load
+                                probe("caller_edited_the_loaded_dictionary")
+                        w_i = st["w"] % n_w
+                        if st.get("fresh_wrapper"):
+                            wrappers[w_i] = PinchProblem()
+                            model[w_i] = dict(loaded=None, keep=None, no_options=False, cached=False, last=None, ch=None, failed_load=False, exact=False, tweak=False)
+                        w, m = wrappers[w_i], model[w_i]
+                        kind, val = run_plain(lambda: w.load(last_file["src"]))
+                        if os.environ.get("DBG16"):
+                            print("RELOAD", last_file, "w0 model", model[w0], file=__import__("sys").stderr)
+                        probe("unchanged_file_loaded_again")
+                        if kind == "ok":
+                            m.update(rec, cached=False, failed_load=False, alts=[])
+                            outcome = "ok"
+                        else:
+                            tick("load_ok")
+                            V("load_raises", f"{rec['ch']}|{type(val).__name__}|reload", step, f"loading the unchanged file again raised {type(val).__name__}: {str(val)[:160]}")
+                            m["failed_load"] = True
+                            m["cached"] = False
+                            outcome = "raise:" + type(val).__name__
                 elif op == "target":
                     w_i = st["w"] % n_w
                     w, m = wrappers[w_i], model[w_i]
